@@ -4,6 +4,10 @@ import json, os
 V = os.path.dirname(os.path.dirname(os.path.abspath(__file__)))
 
 CHECKS = {
+ "C02": dict(cat="model_checking", ref="DESIGN.md section 5 C02",
+   text="TLA+ module Slip10 prescribes, for master and child derivation, which key and data every HMAC-SHA512 candidate must be computed over, the retry data, the curve's answer (ECDSA: parse256(I_L) >= n or zero key => invalid; ed25519: always valid) and which derivations are undefined. TLC model-checks the retry procedure over all answer scripts (first decided candidate wins, retry only after invalid-key, permanent error returned). All scripts are driven through the real slip10 code by a scripted toy Curve plug-in that logs every candidate it is asked about; real-curve derivations (seeds of any length, mixed hardened/normal paths, private and public parents) are validated by TLC from HMAC/point/hash160 facts with BigNat arithmetic, incl. fingerprints, serialised public keys and path composition.",
+   note="Trusted: TLC/SANY/CommunityModules, Go toolchain; crypto/hmac, sha256, ripemd160 and the point(k) providers (crypto/elliptic, crypto/ed25519, driver's affine secp256k1 reference) supply facts whose arguments TLC dictates. Retry branches on real curves are unreachable (2^-128) and covered by the plug-in curve only. One known finding (ed25519 non-hardened derivation) is reported as KNOWN-FINDING.",
+   tech="explicit TLA+ spec + TLC model of the retry procedure + scripted plug-in curve replay + trace validation with logged facts and BigNat"),
  "C17": dict(cat="model_checking", ref="DESIGN.md section 5 C17",
    text="TLA+ module ECGroup (affine group law, identity (0,0)); TLC checks the group axioms on every triple of points of toy curves y^2=x^3+7 of prime order. The production code is generic in CurveParams, so both copies of koblitzCurve are instantiated with the toy parameters and TLC's COMPLETE tables are replayed through them (all point pairs, all points, all scalars 0..2n+2 in several encodings, all coordinates for IsOnCurve). At real size every Add/Double result and ScalarBaseMult relation is verified by TLC through certificates (congruences with logged quotients checked by BigNat multiplication), incl. identity, P=Q, P=-Q, scalars 0, n, n+-1, 2^256-1 and leading zeros.",
    note="Trusted: TLC/SANY/CommunityModules, Go toolchain; the driver's math/big reference only produces certificates that TLC re-verifies. Real-size operands are sampled; exhaustiveness comes from the toy instantiation of the same code.",
